@@ -231,6 +231,9 @@ def verdict(chk, r, name, corr, witness_of=None):
     mgood, mfails = r['model_judge']
     if r['extract_leftover']:
         corr.append(dict(payload, what='lib/extract.py left lines of the real output unattributed'))
+        if not equal and not good:
+            chk.unreadable(r['lang'], payload, r['extract_leftover'])       # lines the extractor cannot read: the observation is not judgeable
+            return hit
     # the theorem, evaluated on the extracted model: outside the recorded classes the model's observation is good
     if r['known'] is None and not mgood:
         chk.violation(name + '-theorem', dict(payload, model_failures=mfails),
